@@ -185,7 +185,8 @@ def run(ck, F, E):
     for fn in ("Rng::random", "Rng::latest_random"):
         b = F.one(fn)
         if b is not None:
-            extern = [c.callee for c in b.calls() if not sfx(c.callee, "Rng::latest_random")]
+            extern = [c.callee for c in b.calls() if not sfx(c.callee, "Rng::latest_random")
+                      and not c.callee.startswith("core::num::")]
             ck.require(not extern, "C18:PURE:%s-callees" % fn, "purity", "%s calls nothing external" % fn,
                        "%s calls %s" % (fn, extern), b.span)
 
